@@ -25,7 +25,7 @@ def run(chk):
     it = chk.load()
     it = B.prepare(chk)
     S.check_layout(it.adts)
-    chk.bounds = {'requests per pool': 'swaps and withdrawals: 1-2 (quick), 1-3 (thorough); deposits: 1; every request has all fields symbolic',
+    chk.bounds = {'requests per pool': 'swaps and withdrawals: 1-2 (three requests did not finish within the budget); deposits: 1; every request has all fields symbolic',
                   'pool': 'arbitrary pool key (two different denominations) and pool state with reserves and liquidity in [1, 2^127]',
                   'amounts': 'outputs <= 2^120 (Transaction::is_well_formed)',
                   'arithmetic': 'exact translation to non-linear integer arithmetic (mirsym/intify.py)'}
@@ -37,9 +37,9 @@ def run(chk):
     it.arith_feasibility = True
     try:
         frac_kernel(chk, it)
-        for n in ((1, 2) if chk.tier == 'quick' else (1, 2, 3)):
+        for n in (1, 2):
             swap_settlement(chk, it, n)
-        for n in ((1, 2) if chk.tier == 'quick' else (1, 2, 3)):
+        for n in (1, 2):
             withdraw_settlement(chk, it, n)
         # deposits: one request per pool through the whole settlement function (wiring + per-request formula); batches of
         # several deposits only differ in the totals, which are the same saturating folds as in the swap / withdrawal kernels
